@@ -290,7 +290,7 @@ func main() {
 				case 4:
 					do(g, table("DescribeTable", "tbl2"))
 				case 5:
-					do(g, table("ClearTable", "tbl1"))
+					do(g, table("ClearTable", []string{"tbl1", "tbl2"}[r.Intn(2)]))
 				case 6:
 					do(g, map[string]interface{}{"op": "Fail", "c": "c1", "mode": []string{"none", "internal"}[r.Intn(2)]})
 				case 7:
